@@ -130,6 +130,28 @@ EscapeText(p) == Cat([i \in 1..Len(p) |-> IF InCharset(p[i]) THEN <<p[i]>> ELSE 
 \* "raw" input form: every byte < 128 except '/', '%', '=' given literally
 RawText(v) == Cat([i \in 1..Len(v) |-> IF v[i] < 128 /\ v[i] \notin {47, 37, 61} THEN <<v[i]>> ELSE EscU(v[i])])
 
+\* Raw non-ASCII characters in URI text are their UTF-8 bytes (text = UTF-8 byte sequence); the library
+\* escapes them automatically like any other character outside CHARSET.  "rawU" input form: a value that is
+\* well-formed UTF-8 with at least one non-ASCII character, every character given literally except '/', '%', '='.
+Cont(b) == b >= 128 /\ b <= 191
+RECURSIVE Utf8From(_, _)
+Utf8From(v, i) ==                     \* exact UTF-8 (no overlong forms, no surrogates, <= U+10FFFF)
+  IF i > Len(v) THEN TRUE
+  ELSE LET b == v[i]
+           c(k) == i + k <= Len(v) /\ Cont(v[i + k])
+       IN IF b < 128 THEN Utf8From(v, i + 1)
+          ELSE IF b >= 194 /\ b <= 223 THEN c(1) /\ Utf8From(v, i + 2)
+          ELSE IF b = 224 THEN c(1) /\ v[i + 1] >= 160 /\ c(2) /\ Utf8From(v, i + 3)
+          ELSE IF b = 237 THEN c(1) /\ v[i + 1] <= 159 /\ c(2) /\ Utf8From(v, i + 3)
+          ELSE IF b >= 225 /\ b <= 239 THEN c(1) /\ c(2) /\ Utf8From(v, i + 3)
+          ELSE IF b = 240 THEN c(1) /\ v[i + 1] >= 144 /\ c(2) /\ c(3) /\ Utf8From(v, i + 4)
+          ELSE IF b >= 241 /\ b <= 243 THEN c(1) /\ c(2) /\ c(3) /\ Utf8From(v, i + 4)
+          ELSE IF b = 244 THEN c(1) /\ v[i + 1] <= 143 /\ c(2) /\ c(3) /\ Utf8From(v, i + 4)
+          ELSE FALSE
+IsUtf8(v) == Utf8From(v, 1)
+HasNonAscii(v) == \E i \in 1..Len(v) : v[i] >= 128
+RawUText(v) == Cat([i \in 1..Len(v) |-> IF v[i] \notin {47, 37, 61} THEN <<v[i]>> ELSE EscU(v[i])])
+
 \* ------------------------------------------------------------------ component <-> text
 TypePrefix(t) == IF t = 8 THEN <<>> ELSE DecStr(t) \o <<61>>
 Canonical(c) == TypePrefix(c.t) \o Esc(c.v)
@@ -163,16 +185,18 @@ UriToComp(s) ==
 HasShorthand(s) == \E e \in EqPos(s) : ~AllDigits(SubSeq(s, 1, e - 1))
 
 \* every spelling of a component the reference generates for stage B: [k |-> style, s |-> text]
-Styles == {"canonU", "canonL", "allesc", "typed", "raw", "short", "shortU"}
+Styles == {"canonU", "canonL", "allesc", "typed", "raw", "rawU", "short", "shortU"}
 StylesOf(c) == {"canonU", "canonL", "allesc", "typed", "raw"}
                \cup (IF HasShorthandForm(c) THEN {"short"} ELSE {})
                \cup (IF c.t \in {1, 2} THEN {"shortU"} ELSE {})
+               \cup (IF HasNonAscii(c.v) /\ IsUtf8(c.v) THEN {"rawU"} ELSE {})
 \* a style that does not apply to a component falls back to its canonical text
 FormOf(c, k) ==
   CASE k = "canonL" -> TypePrefix(c.t) \o EscLower(c.v)
     [] k = "allesc" -> TypePrefix(c.t) \o EscAll(c.v)
     [] k = "typed"  -> DecStr(c.t) \o <<61>> \o Esc(c.v)
     [] k = "raw"    -> TypePrefix(c.t) \o RawText(c.v)
+    [] k = "rawU"   -> (IF HasNonAscii(c.v) /\ IsUtf8(c.v) THEN TypePrefix(c.t) \o RawUText(c.v) ELSE Canonical(c))
     [] k = "short"  -> CompToUri(c)
     [] k = "shortU" -> (IF c.t = 1 THEN S_sha \o <<61>> \o HexUpper(c.v)
                         ELSE IF c.t = 2 THEN S_par \o <<61>> \o HexUpper(c.v) ELSE Canonical(c))
